@@ -1,4 +1,5 @@
 import EpgVerif.Props.C07
+import EpgVerif.Tie.ApplySites
 open EpgVerif.Props.C07
 #print axioms broadcast2_comm
 #print axioms broadcast2_self
@@ -6,3 +7,4 @@ open EpgVerif.Props.C07
 #print axioms broadcast2_none_iff
 #print axioms insert_axes_realises_append
 #print axioms setAxes_places_axis
+#print axioms EpgVerif.Tie.ApplySites.sites_as_modelled
